@@ -115,7 +115,7 @@ CLAIMED = {
     "C10": ("model_checking",
             "Store.tla models construction of the client store at the grain of store.go: cache load (only a well-formed document is used), "
             "stubs, init rounds (one Get per still-missing secret per round, never for a secret already obtained or supplied by the cache), the "
-            "doubling back-off 1 ms .. 4096 ms, the caller's deadline, the final flush, and the file-backed client (succeed or fail at once). TLC "
+            "a pause between rounds that is positive and at most a few seconds, the caller's deadline, the final flush, and the file-backed client (succeed or fail at once). TLC "
             "checks InitOK / LookupGate / HandleNeverDangles exhaustively over declared sets (duplicates included) x cache classes x failure scripts "
             "x deadlines. Random scripted-service histories of the real NewStore, run under testing/synctest (virtual time), are validated line "
             "by line by TLC (StoreTrace): every request, its virtual timestamp (so each back-off delay and the prompt return at the deadline are "
@@ -193,9 +193,9 @@ CLAIMED = {
             "every written document is fed to a real FileClient which must agree on every secret. Cache contents that are malformed by "
             "construction (truncations, missing / null / mistyped members, empty name, non-object incl. null, trailing or random bytes) are fed to "
             "the real NewStore and TLC validates that the start behaves exactly as with no cache. FileCache.Write runs in a child under strace: its "
-            "system calls are validated against AtomicFile.tla and each is made to fail or to be the instant of a SIGKILL (old or new document, 0600).",
+            "system calls are validated against FileSys.tla (whatever names and order the writer uses) and each is made to fail or to be the instant of a SIGKILL (old or new document, 0600).",
             "Inputs whose treatment encoding/json leaves open (duplicate keys, case-variant member names, extra members, overflowing numbers) only "
-            "have to start without panic and serve the cache's or the service's value. Power loss is decided on AtomicFile.tla given the validated call order.",
+            "have to start without panic and serve the cache's or the service's value. Power loss is decided on the model (FileSys!ReplaceFlushed, AllOrNothingPower) given the recorded calls.",
             "TLC exhaustive check of Store.tla (cache configuration) + TLC trace validation (random, TLC-simulated, malformed-input histories) + strace fault/kill injection on FileCache.Write validated against AtomicFile.tla",
             "DESIGN.md §4 C13"),
     "C20": ("exploration",
@@ -227,7 +227,7 @@ CLAIMED = {
             "DESIGN.md §4 C18"),
     "C17": ("model_checking",
             "Backup.tla models the periodic-backup loop step by step (check the write generation / read the live file / the request reaches the "
-            "bucket / outcome incl. the five-minute limit / wait a minute / exit on cancellation) with database writes, a bucket that answers, "
+            "bucket / outcome incl. the client's time limit / wait at least a minute, at most MaxWait / exit on cancellation) with database writes, a bucket that answers, "
             "fails or stalls, cancellation and an explicit clock that cannot pass a due step. TLC checks Consistent (every object is a complete "
             "file version), ChangeDriven, RateLimit, Quiescent (whenever time passes the task waits, uploads or is gone; a cancelled task is gone "
             "before any time passes), CoverExact (success covers exactly the generation read before the upload) and Settled (quiet and healthy for "
